@@ -14,7 +14,7 @@ import enginerun as R
 
 PID = 'C03'
 
-TOK_RE = re.compile(r'\s*(\d+|[a-z]+|[-+*/^()])')
+TOK_RE = re.compile(r'\s*(\d+|[a-z]+|[-+*/^()~!])')
 
 
 class Ref:
@@ -27,6 +27,9 @@ class Ref:
         first = self.rules['expr']
         if E.kind(first) == 'call':          # aliased
             first = self.rules['e']
+        if kind == 'optcall':
+            first = self.rules['sum']
+        self.postfix = kind == 'postfix'
         self.ops1 = [alt[1][1][1] for alt in first[1] if E.kind(alt) == 'seq' and E.kind(alt[1][-2]) == 'tok'] if E.kind(first) == 'choice' else []
         # operators of the first level, in order of the alternatives
         self.level1 = []
@@ -96,11 +99,22 @@ class Ref:
         return self.atom(t, i)
 
     def expr(self, t, i):
+        if self.kind == 'optcall' and i < len(t) and t[i] in ('~', '!'):
+            r = self.sum_(t, i + 1)
+            return ([t[i], r[0]], r[1]) if r else None
+        return self.sum_(t, i)
+
+    def sum_(self, t, i):
         r = self.term(t, i)
         if not r:
             return None
         v, i = r
-        while i < len(t) and t[i] in self.level1:
+        while i < len(t) and (t[i] in self.level1 or (self.postfix and t[i] == '(')):
+            if self.postfix and t[i] == '(':
+                if i + 1 < len(t) and t[i + 1] == ')':
+                    v, i = [v, '(', ')'], i + 2
+                    continue
+                break
             r2 = self.term(t, i + 1)
             if not r2:
                 break
@@ -127,7 +141,7 @@ class Ref:
         return ('ok', v)
 
 
-REF_KINDS = {'direct', 'direct2', 'named', 'rightmix', 'unary', 'layered', 'aliased'}
+REF_KINDS = {'direct', 'direct2', 'named', 'rightmix', 'unary', 'layered', 'aliased', 'postfix', 'optcall'}
 
 
 def all_op_strings(maxlen):
@@ -155,7 +169,7 @@ def shard(col, shard_i, ngrammars, ninputs, exhaustive_len):
     for gi in range(ngrammars):
         g, kind = G.lrec_grammar(rng)
         col.count('kind.' + kind)
-        texts = G.lrec_inputs(rng, ninputs, maxlen=7)
+        texts = G.lrec_inputs(rng, ninputs, maxlen=7, g=g)
         if exhaustive_len and gi % 4 == 0:
             texts = texts + all_op_strings(exhaustive_len)
         ref = Ref(g, kind) if kind in REF_KINDS else None
@@ -192,7 +206,8 @@ def shard(col, shard_i, ngrammars, ninputs, exhaustive_len):
             want = ref.parse(c.text)
             col.count('ref.compared')
             if want != io:
-                col.violation(f'oracle:left-assoc:{c.tag}:{want[0]}-vs-{io[0]}',
+                signed = c.tag == 'optcall' and c.text.lstrip()[:1] in ('~', '!')
+                col.violation(f'oracle:left-assoc:{c.tag}{":cycle-entered-through-non-leader" if signed else ""}:{want[0]}-vs-{io[0]}',
                               f'result differs from the left fold of the longest chain (reference {want}, got {io})',
                               {'oracle': 'iterative reference folded to the left', 'case': c.describe(), 'reference': want, 'impl': io})
     if cases:
